@@ -83,6 +83,8 @@ Definition show_lexerr (e : lexerr) : string :=
   | UnexpectedCharacterInIdentifier => "UnexpectedCharacterInIdentifier"
   | ExpectedDigit => "ExpectedDigit" | ExpectedDigitInBase => "ExpectedDigitInBase"
   | UnterminatedString => "UnterminatedString" | UnexpectedScopeClosing => "UnexpectedScopeClosing"
+  | UnterminatedStringInterpolation => "UnterminatedStringInterpolation"
+  | UnexpectedCurlyInInterpolation => "UnexpectedCurlyInInterpolation"
   end.
 
 Definition show_perr (e : perr) : string :=
@@ -127,6 +129,7 @@ Definition show_perr (e : perr) : string :=
   | NumberInDimensionExponentOutOfRange => "NumberInDimensionExponentOutOfRange"
   | DivisionByZeroInDimensionExponent => "DivisionByZeroInDimensionExponent"
   | OverflowInDimensionExponent => "OverflowInDimensionExponent" | UnknownAliasAnnotation => "UnknownAliasAnnotation"
+  | EmptyStringInterpolation => "EmptyStringInterpolation" | UnterminatedStringParse => "UnterminatedString"
   end.
 
 Definition show_binop (o : binop) : string :=
@@ -144,6 +147,12 @@ Fixpoint show_expr (e : expr) : string :=
   | EHole => "(hole)"
   | EBool b => if b then "(bool true)" else "(bool false)"
   | EString s => "(str """ ++ esc s ++ """)"
+  | EInterp parts =>
+      "(str" ++ String.concat "" (map (fun p => match p with
+                                             | PFixed s => " """ ++ esc s ++ """"
+                                             | PExpr a None => " (interp " ++ show_expr a ++ ")"
+                                             | PExpr a (Some f) => " (interp " ++ show_expr a ++ " """ ++ esc f ++ """)"
+                                             end) parts) ++ ")"
   | EUn Negate a => "(neg " ++ show_expr a ++ ")"
   | EUn LogicalNeg a => "(not " ++ show_expr a ++ ")"
   | EUn (Factorial n) a => "(fact " ++ show_nat n ++ " " ++ show_expr a ++ ")"
